@@ -314,9 +314,12 @@ def construct_models_in_parallel(sample, chr_id, dump_filename, args, read_group
         aggregator.transcript_model_global_counter.dump()
         transcript_stat_counter.dump(transcript_stat_file)
     logger.info("Finished processing chromosome " + chr_id)
+    # per-chromosome output files are closed by the printers' destructors, release them before the lock is set
+    read_stat_counter = aggregator.read_stat_counter
+    del aggregator, tmp_gff_printer, tmp_extended_gff_printer, sqanti_t2t_printer
     open(lock_file, "w").close()
 
-    return aggregator.read_stat_counter, transcript_stat_counter
+    return read_stat_counter, transcript_stat_counter
 
 
 class ReadAssignmentAggregator:
